@@ -55,3 +55,4 @@ LEVEL_NOTE = ("Trusted: Lean kernel; axioms propext/Classical.choice/Quot.sound 
               "Hypothesis: Snapshot events carry strictly ordered sides without zero amounts (guaranteed by OrderBook::new for distinct-price non-zero input; "
               "the code does not enforce it - documented precondition). Exact rationals instead of rust_decimal; time_engine and lock contention not modelled. "
               "Additionally tied by translation: the Lean definitions of the kernels the free functions mid_price / volume_weighted_mid_price and struct Level (barter-data/src/books/mod.rs) are regenerated from the current source on every run (tools/rust2lean.py) and proved equal to the model's (kernels_agree_with_source), so a change of such a kernel breaks a proof obligation directly; the translator and its Decimal prelude are trusted for that tie.")
+SUBCHECKS = ["C05M"]
